@@ -26,6 +26,19 @@ move-helper / loop-vs-comprehension / early-return-vs-else / generator refactori
 that are vocabulary of the pipeline (FileFilter, Config, Parser, ImportConverter, the Import classes, NetworkxGraph) are not
 entered; their results are opaque values that carry the taint of their inputs.
 
+What is modelled: assignments (names, tuples, fields of objects built by the pipeline), if / elif / else with early return /
+continue / break (path conditions, bindings merged per branch), conditional expressions, for loops and comprehensions over
+collections (one run for the generic element; per-iteration literals such as `[imp.importee(), *imp.importee_parent_modules()]`
+are unrolled), `for .. else`, work-list `while` loops, generators (yield = add to the result), any / all / next(it, default) /
+truthiness of collections as existential closures over the loop variable, flag variables switched on / off in a loop, accumulators
+(append / add / extend / update / += / |= / item stores into a dict used as ordered set), copies (list / set / frozenset / tuple /
+sorted / dict.fromkeys / .copy()), set algebra (| & - union difference ..., membership expanded through filters), filter / map /
+enumerate / functools.partial / itertools.chain, lambdas and closures, strategy objects and callables chosen under a condition
+(alternatives, operations distribute over them), dataclass-like objects, properties, class attributes, super().
+What is not modelled makes the affected values *unknown* (free atoms carrying the taint of what they were computed from, parts
+marked partial, bases of unknown origin); the rules then give no verdict (undecided) instead of a wrong one.  Exception handlers
+are not interpreted: the property speaks about scans that succeed.
+
 Nothing of the repository is executed: the interpreter only ever manipulates formulas and descriptions it built itself.
 """
 
